@@ -165,6 +165,29 @@ def run(res, tier, seed):
                                                                 common.zlist(line["space"]), gq), (fmt, i)))
             else:
                 coq["pod_tele"].append(("(%s, %s)" % (common.zlist(tw), gq), (fmt, i)))
+    # ---------- KLM passes without a single 3b line (all 3a / 3a and transition): the telemetry of all three thermal views is still the file's ----------
+    for fmt, sc, swset in (("gac_klm", "noaa17", (1,)), ("lac_klm", "metopa", (1, 2)), ("gac_klm", "noaa18", (1, 2, 3))):
+        n = 9
+        start = datetime.datetime(2005, 6, 7, 8, 9, 10)
+        lines = l1b.default_lines(fmt, n, start, switch=[swset[i % len(swset)] for i in range(n)])
+        for ln in lines:
+            ln["prt"] = [rng.randrange(1024) for _ in range(3)]
+            ln["ict"] = [rng.randrange(200, 1024) for _ in range(30)]
+            ln["space"] = [rng.randrange(200, 1024) for _ in range(50)]
+        r = impl.open_reader(fmt, l1b.build_file(fmt, sc, start, lines), adjust_clock_drift=False)
+        prt, ict, space = r.get_telemetry()
+        ds = r.create_counts_dataset()
+        ctx = dict(fmt=fmt, spacecraft=sc, channel_select_values=list(swset), seed=seed)
+        for i, ln in enumerate(lines):
+            e = [frac_mean(ln["prt"])] + [frac_mean(ln["ict"][j::3]) for j in range(3)] + [frac_mean(ln["space"][2 + j::5]) for j in range(3)]
+            g = [float(prt[i])] + [float(x) for x in ict[i]] + [float(x) for x in space[i]]
+            gd = [float(ds["prt_counts"].values[i])] + [float(x) for x in ds["ict_counts"].values[i]] + [float(x) for x in ds["space_counts"].values[i]]
+            if any(abs(Fraction(a) - b) > Fraction(1, 10**9) for a, b in zip(g, e)) or g != gd:
+                res.violations.append(("telemetry count is not the mean of the designated words (pass without a 3b line)",
+                                       dict(ctx, line_index=i, got=g, dataset=gd, expected=[float(x) for x in e])))
+                break
+        res.add_case(("no3b", fmt, swset), True, ctx)
+        res.traces += 1
     # ---------- long passes (whole-array oracle in numpy from the raw words): every line of a full-size pass ----------
     for fmt, sc in (("gac_klm", "noaa19"), ("gac_pod", "noaa12")):
         info = l1b.FMT[fmt]
